@@ -335,20 +335,50 @@ def oracle(case, result):
     if len(result) != len(groups):
         return (f'{site}:row-count', f'{len(result)} rows for {len(groups)} distinct key combinations; case={case}')
     pending = {k: list(v) for k, v in shown.items()}
+    # pass 1: rows that match a group exactly; pass 2: what is left is judged against the remaining group(s)
+    left = []
     for r in result:
         key = tuple(r[:nk])
         cands = pending.get(key)
         if not cands:
             return (f'{site}:unexpected-key', f'row with key {key} not expected (or too many of them); case={case}')
-        bad = None
         for idx, (mkey, grows) in enumerate(cands):
-            bad = _check_cells(site, mode, case, r, mkey, grows, pvs)
-            if bad is None:
+            if _check_cells(site, mode, case, r, mkey, grows, pvs) is None:
                 del cands[idx]
                 break
-        if bad is not None:
-            return bad
+        else:
+            left.append(r)
+    for r in left:
+        cands = pending.get(tuple(r[:nk]))
+        if not cands:
+            return (f'{site}:unexpected-key', f'row {r} matches no remaining group; case={case}')
+        mkey, grows = cands.pop(0)
+        return _check_cells(site, mode, case, r, mkey, grows, pvs)
     return None
+
+
+def last_defect_applies(case, mkey, grows, pv, got):
+    """Known finding: Last.mergeStats (ignore_nulls=False) overwrites its value with the initial None of a partial
+    that saw no row.  Such partials only exist under pivot (a slot of a group that has rows for other pivot values)."""
+    _, keycols, pivot, _, parts = case
+    if pivot is None or got is not None:
+        return False
+
+    def in_group(r):
+        return all(m is SUB or (r[c] == m and type(r[c]) is type(m)) for c, m in zip(keycols, mkey))
+
+    def in_cell(r):
+        return r[pivot[0]] is not None and r[pivot[0]] == pv
+    for p in parts:
+        g = [r for r in p if in_group(r)]
+        if g and not any(in_cell(r) for r in g):
+            return True
+    if SUB in mkey:
+        fine = {}
+        for r in grows:
+            fine.setdefault(tuple(r[c] for c in keycols), []).append(r)
+        return any(not any(in_cell(r) for r in rs) for rs in fine.values())
+    return False
 
 
 def _check_cells(site, mode, case, r, mkey, grows, pvs):
@@ -361,6 +391,10 @@ def _check_cells(site, mode, case, r, mkey, grows, pvs):
             got = r[nk + pi * len(aggs) + ai]
             kind, want = direct(AGG[code], cell_rows, cols, exact_order)
             if not _cmp(kind, want, got):
+                if AGG[code] == 'last' and last_defect_applies(case, mkey, grows, pv, got):
+                    return ('pivot.agg:last:null-after-a-partial-of-the-group-without-a-row-for-the-pivot-value',
+                            f'last({COLS[cols[0]]}) for key {mkey} pivot {pv!r} is None, the cell has rows '
+                            f'{[x[cols[0]] for x in cell_rows]}; case={case}')
                 empty = 'empty-cell' if not cell_rows else 'cell'
                 return (f'{site}:{AGG[code]}:{empty}',
                         f'{AGG[code]}({",".join(COLS[c] for c in cols)}) for key {mkey} pivot {pv!r} is {got!r}, '
@@ -432,8 +466,7 @@ def modes(rng):
     out = [('groupBy', [K], None), ('groupBy', [S], None), ('groupBy', [K, S], None), ('groupBy', [], None),
            ('rollup', [K, S], None), ('rollup', [K], None), ('cube', [K, S], None), ('cube', [S], None),
            ('groupBy', [K], (S, ['a', 'b'])), ('groupBy', [K], (S, None)), ('groupBy', [K], (S, ['b', 'z', 'a'])),
-           ('groupBy', [], (S, ['a', 'b', 'c'])), ('rollup', [K], (S, ['a', 'b'])), ('cube', [K], (S, None)),
-           ('groupBy', [S], (K, None))]
+           ('groupBy', [], (S, ['a', 'b', 'c'])), ('rollup', [K], (S, ['a', 'b'])), ('cube', [K], (S, None))]
     return out
 
 
